@@ -3,6 +3,7 @@
 package rhp
 
 import (
+	"bytes"
 	"encoding/binary"
 	"encoding/json"
 	"fmt"
@@ -30,6 +31,7 @@ import (
 type c14Conn struct {
 	rt      *rhp3.Transport
 	results chan [2]any // recovered panic value and site of the last handled stream
+	closeFn func()
 }
 
 func (h *c14Host) connect() *c14Conn {
@@ -65,8 +67,27 @@ func (h *c14Host) connect() *c14Conn {
 		h.t.Fatal(err)
 	}
 	c.rt = rt
-	h.t.Cleanup(func() { rt.Close(); cr.Close(); ch.Close() })
+	c.closeFn = func() { rt.Close(); cr.Close(); ch.Close() }
+	h.t.Cleanup(c.closeFn)
 	return c
+}
+
+// rpcAbort runs fn on a fresh stream and then drops the whole connection, so that a
+// handler left waiting for the rest of a malformed message returns at once.  The
+// connection cannot be used afterwards.
+func (c *c14Conn) rpcAbort(fn func(s *rhp3.Stream)) (pan any, site string) {
+	s := c.rt.DialStream()
+	s.SetDeadline(time.Now().Add(2 * time.Second))
+	fn(s)
+	c.closeFn()
+	select {
+	case r := <-c.results:
+		if r[0] != nil {
+			return r[0], r[1].(string)
+		}
+	case <-time.After(20 * time.Second):
+	}
+	return nil, ""
 }
 
 // rpc runs fn on a fresh stream and waits for the handler to return.
@@ -214,6 +235,8 @@ func TestVerifC14Exec(t *testing.T) {
 			p.prog = nil
 			p.attach, p.finalize = false, false
 		}
+		// raw byte mutations of a valid request: a search aid, evaluated by the monitors only
+		mutate := rawCount == 0 && id > c14Directed && rng.Intn(20) == 0
 		// keep amounts such that the account can pay
 		if p.amount.Cmp(types.Siacoins(1)) > 0 {
 			p.amount = types.Siacoins(1)
@@ -277,7 +300,11 @@ func TestVerifC14Exec(t *testing.T) {
 		pt := h.registerPT(p.pt)
 		var outs []string
 		var rerr error
-		pan, site := conn.rpc(func(s *rhp3.Stream) {
+		call := conn.rpc
+		if mutate {
+			call = conn.rpcAbort
+		}
+		pan, site := call(func(s *rhp3.Stream) {
 			if rerr = s.WriteRequest(rhp3.RPCExecuteProgramID, &pt.UID); rerr != nil {
 				return
 			}
@@ -293,7 +320,25 @@ func TestVerifC14Exec(t *testing.T) {
 			if withContract {
 				req.FileContractID = cid
 			}
-			if rawCount != 0 {
+			if mutate {
+				var buf bytes.Buffer
+				enc := types.NewEncoder(&buf)
+				req.EncodeTo(enc)
+				enc.Flush()
+				raw := c14Raw(buf.Bytes())
+				limit := len(raw)
+				if limit > 600 {
+					limit = 600 // the header, the instructions and the start of the data
+				}
+				for k := 0; k < 1+rng.Intn(4); k++ {
+					raw[rng.Intn(limit)] ^= byte(1 << uint(rng.Intn(8)))
+				}
+				if rng.Intn(3) == 0 {
+					raw = raw[:rng.Intn(limit)]
+				}
+				rerr = s.WriteResponse(&raw)
+				s.SetDeadline(time.Now().Add(2 * time.Second))
+			} else if rawCount != 0 {
 				raw := make(c14Raw, 40)
 				copy(raw, req.FileContractID[:])
 				binary.LittleEndian.PutUint64(raw[32:], rawCount)
@@ -422,6 +467,17 @@ func TestVerifC14Exec(t *testing.T) {
 		if strings.HasPrefix(outcome, "(Rejected") || outcome == "Crashed" {
 			ntemps = 0
 		}
+		if mutate {
+			conn = h.connect()
+			em.Count("exec:byte-mutated")
+			if pan == nil && balBefore.Cmp(balAfter) >= 0 && balBefore.Sub(balAfter).Cmp(p.amount) > 0 {
+				em.Monitor("mutated-request-overcharged", fmt.Sprintf("balance %v -> %v, budget %v", balBefore, balAfter, p.amount))
+			}
+			em.EndCase(false)
+			p.d.release()
+			h.contract = after.SignedRevision
+			continue
+		}
 		em.Step(fmt.Sprintf("OpProgram %s %s", hTerm, qTerm),
 			fmt.Sprintf("OProg %s %s %d %s %d", outcome, coqCur(balAfter), after.Revision.RevisionNumber, coqHashes(rootsAfter), ntemps))
 		em.Count(fmt.Sprintf("exec:finalize=%v,contract=%v", p.finalize, withContract))
@@ -457,9 +513,52 @@ func TestVerifC14Fund(t *testing.T) {
 		if err != nil {
 			t.Fatal(err)
 		}
-		kind := rng.Intn(8)
+		kind := rng.Intn(9)
 		if id < 3 {
 			kind = []int{0, 0, 7}[id]
+		}
+		if kind == 8 {
+			// ---------------------------------------------------- RPCLatestRevision / RPCAccountBalance, monitors only
+			em.BeginCase(id, "RPCLatestRevision / RPCAccountBalance with unknown ids and truncated payments")
+			var rid types.FileContractID
+			rng.Read(rid[:])
+			if rng.Intn(2) == 0 {
+				rid = cid
+			}
+			pan, site := conn.rpc(func(s *rhp3.Stream) {
+				s.SetDeadline(time.Now().Add(2 * time.Second))
+				if err := s.WriteRequest(rhp3.RPCLatestRevisionID, &rhp3.RPCLatestRevisionRequest{ContractID: rid}); err != nil {
+					return
+				}
+				var resp rhp3.RPCLatestRevisionResponse
+				s.ReadResponse(&resp, 1<<16)
+			})
+			if pan != nil {
+				em.Monitor("panic-"+site, fmt.Sprintf("RPCLatestRevision %v: %v", rid, pan))
+			}
+			pt := h.registerPT(rhp3.HostPriceTable{AccountBalanceCost: types.NewCurrency64(uint64(rng.Intn(3))), HostBlockHeight: h.node.Chain.Tip().Height})
+			pan, site = conn.rpc(func(s *rhp3.Stream) {
+				s.SetDeadline(time.Now().Add(2 * time.Second))
+				if err := s.WriteRequest(rhp3.RPCAccountBalanceID, &pt.UID); err != nil {
+					return
+				}
+				pay := rhp3.PayByEphemeralAccountRequest{Account: h.account, Expiry: pt.HostBlockHeight + uint64(rng.Intn(40)), Amount: types.NewCurrency64(uint64(rng.Intn(4)))}
+				if rng.Intn(3) == 0 {
+					pay.Amount = types.NewCurrency(^uint64(0), ^uint64(0))
+				}
+				pay.Signature = h.acctKey.SignHash(pay.SigHash())
+				s.WriteResponse(&rhp3.PaymentTypeEphemeralAccount)
+				s.WriteResponse(&pay)
+				s.WriteResponse(&rhp3.RPCAccountBalanceRequest{Account: target})
+				var resp rhp3.RPCAccountBalanceResponse
+				s.ReadResponse(&resp, 4096)
+			})
+			if pan != nil {
+				em.Monitor("panic-"+site, fmt.Sprintf("RPCAccountBalance: %v", pan))
+			}
+			em.Count("other-handlers")
+			em.EndCase(false)
+			continue
 		}
 		if kind < 7 {
 			// ---------------------------------------------------- RPCFundAccount
